@@ -60,6 +60,7 @@ def run(chk):
     # ---------------- kd-tree: phase 1, let the implementation build the trees ----------------------
     sets = []
     for _ in range(60 if quick else 800):
+        rng.seed("%d/c19-1/%d" % (chk.seed, _))      # every world has its own stream: families do not disturb each other
         if rng.random() < 0.4:
             n = rng.randint(1, 7)
             pts = [(float(rng.randrange(4)), float(rng.randrange(4))) for _ in range(n)]
@@ -98,6 +99,7 @@ def run(chk):
     import c04
     pl_lines, pl_meta = [], []
     for _ in range(40 if quick else 600):
+        rng.seed("%d/c19-2/%d" % (chk.seed, _))      # every world has its own stream: families do not disturb each other
         size = rng.choice([4, 5, 6])
         poly = c04.lattice_polygon(rng, rng.randint(3, 6), size)
         for pg in (poly, poly[::-1], poly[1:] + poly[:1]):
@@ -148,6 +150,7 @@ def run(chk):
             plan.append(("kd", i, "ok " + tail.strip()))
     # ---------------- Bezier -----------------------------------------------------------------------
     for _ in range(40 if quick else 600):
+        rng.seed("%d/c19-3/%d" % (chk.seed, _))      # every world has its own stream: families do not disturb each other
         n = rng.choice([2, 2, 3, 4, 5, 7])
         pts = polyline(rng, n)
         pl = "%d %s" % (n, " ".join(fhex(p[0]) + " " + fhex(p[1]) for p in pts))
@@ -180,6 +183,7 @@ def run(chk):
     # aimed: a symmetric bend; on its convex side the foot of a point on the axis of symmetry is exactly the middle coordinate
     # (the Newton iterations of the two adjacent segments end at 1 + O(eps) and 0 - O(eps))
     for _ in range(8 if quick else 80):
+        rng.seed("%d/c19-4/%d" % (chk.seed, _))      # every world has its own stream: families do not disturb each other
         ox, oy = rng.choice([0.0, 65536.0, -131072.0]), rng.choice([0.0, 262144.0])
         a, b = float(rng.choice([50, 100, 150, 300])) * 1024.0, float(rng.choice([200, 300, 500])) * 1024.0
         sx = rng.choice([-1.0, 1.0])
@@ -203,6 +207,7 @@ def run(chk):
             plan.append(("bezcp", ic, pts, q, ib, -h))
     # ---------------- Bezier, spherical closest point (haversine Newton with line search) -------------------
     for _ in range(30 if quick else 400):
+        rng.seed("%d/c19-5/%d" % (chk.seed, _))      # every world has its own stream: families do not disturb each other
         n = rng.choice([2, 2, 3, 4, 5])
         lon, lat, ang = rng.uniform(-170, 170), rng.uniform(-70, 70), rng.uniform(0, 2 * PI)
         ptsd = [(round(lon, 1), round(lat, 1))]
@@ -229,6 +234,7 @@ def run(chk):
                         {"kind": "bezcp-spherical", "points": pr, "query": q})
     # ---------------- conversions and great circle ---------------------------------------------------
     for _ in range(150 if quick else 3000):
+        rng.seed("%d/c19-6/%d" % (chk.seed, _))      # every world has its own stream: families do not disturb each other
         r = rng.choice([6371000.0, 1.0, rng.uniform(1e3, 7e6)])
         lon, lat = rng.uniform(-PI, PI), rng.uniform(-PI / 2, PI / 2)
         if rng.random() < 0.1:
@@ -300,9 +306,13 @@ def run(chk):
             if len(pts) > 2:
                 chk.nontriv(("bez", i))
             # dense scan: is some curve point noticeably closer?  (query within a few hundred km, foot inside the curve)
-            best = min(math.hypot(bez_eval(pts, ctrl, k, s / 400.0)[0] - q[0], bez_eval(pts, ctrl, k, s / 400.0)[1] - q[1])
-                       for k in range(len(pts) - 1) for s in range(401))
-            if best < abs(dist) - max(50.0, 2e-3 * abs(dist)):
+            best, bk, bs = min((math.hypot(bez_eval(pts, ctrl, k, s / 400.0)[0] - q[0], bez_eval(pts, ctrl, k, s / 400.0)[1] - q[1]), k, s)
+                               for k in range(len(pts) - 1) for s in range(401))
+            if (bk == 0 and bs == 0) or (bk == len(pts) - 2 and bs == 400):
+                # the nearest point of the curve is one of its ends: there is no foot of a perpendicular there, and the search
+                # reports feet only (points beyond the ends of a trench do not belong to the slab)
+                chk.count("closest point: the nearest curve point is an end of the curve (no foot)")
+            elif best < abs(dist) - max(50.0, 2e-3 * abs(dist)):
                 viol.append(("another point of the trench curve is noticeably closer (%.1f m vs reported %.1f m)" % (best, abs(dist)), cs.describe(i)))
         elif kind == "s2c":
             r, lon, lat = pl[2]
